@@ -19,7 +19,7 @@ import sys
 PY = "/venv/bin/python"
 
 
-def run(cmd, cwd, env=None, timeout=1800):
+def run(cmd, cwd, env=None, timeout=int(os.environ.get("SEED_TIMEOUT", "1800"))):
     r = subprocess.run(cmd, cwd=cwd, env=env, capture_output=True, text=True, timeout=timeout)
     return r.returncode, (r.stdout + r.stderr)
 
